@@ -58,7 +58,8 @@ RangeWords(s) == (s.end - s.base) \div s.bpw
 
 BInit == [set |-> [bpw |-> 1, base |-> 0, end |-> 1, length |-> 1, rd |-> 0, ra |-> 0],
           ph |-> "idle",                      \* idle | gen | chk
-          q |-> <<>>,                         \* byte addresses of commands whose data beat is still to come
+          q |-> <<>>,                         \* checker: byte addresses of read commands whose data beat is still to come
+          gq |-> <<>>,                        \* generator: byte addresses of write commands whose data beat is still to come
           n |-> 0,                            \* commands seen in this run
           nd |-> 0,                           \* data beats seen in this run
           val |-> 0,                          \* 31-bit value of the next data position
@@ -81,14 +82,14 @@ BistStep(s, e) ==      \* -> [s, bad, envbad]
         [s |-> [BInit EXCEPT !.set = e.set, !.stats = s.stats], bad |-> {},
          envbad |-> IF LegalSetting(e.set) THEN {} ELSE {<<"settings outside the property's assumptions", e.set>>}]
     [] e.c = "GSTART" ->
-        [s |-> [s EXCEPT !.ph = "gen", !.q = <<>>, !.n = 0, !.nd = 0, !.val = FirstVal(set.rd), !.gpos = <<>>, !.gran = FALSE],
+        [s |-> [s EXCEPT !.ph = "gen", !.gq = <<>>, !.n = 0, !.nd = 0, !.val = FirstVal(set.rd), !.gpos = <<>>, !.gran = FALSE],
          bad |-> {}, envbad |-> {}]
     [] e.c = "CSTART" ->
         [s |-> [s EXCEPT !.ph = "chk", !.q = <<>>, !.n = 0, !.nd = 0, !.val = FirstVal(set.rd), !.mism = 0, !.c1ok = TRUE],
          bad |-> {}, envbad |-> {}]
     [] e.c = "CMD" ->
         IF s.ph = "gen" /\ e.u = "g" /\ e.we THEN
-            [s |-> [s EXCEPT !.q = Append(@, e.ab), !.n = @ + 1],
+            [s |-> [s EXCEPT !.gq = Append(@, e.ab), !.n = @ + 1],
              bad |-> (IF e.ab >= set.base /\ e.ab + bpw <= set.end THEN {}
                       ELSE {<<"generator write outside [base, end)", e.ab, set.base, set.end>>})
                      \cup (IF set.ra = 0 /\ e.ab # set.base + (s.n % RangeWords(set)) * bpw
@@ -103,12 +104,16 @@ BistStep(s, e) ==      \* -> [s, bad, envbad]
                 envbad |-> {}]
         ELSE [s |-> s, bad |-> {<<"unexpected command on a BIST port", s.ph, e.u, e.we, e.ab>>}, envbad |-> {}]
     [] e.c = "WDATA" ->
-        IF s.ph = "gen" /\ e.u = "g" /\ s.q # <<>> THEN
-            LET a == Head(s.q)  w == WordBytes(s.val, bpw) IN
-            [s |-> [s EXCEPT !.q = Tail(@), !.nd = @ + 1, !.val = NextVal(set.rd, @),
-                             !.gpos = Append(@, <<a, e.d>>), !.mem = BPut(@, a, e.d)],
-             bad |-> IF e.d = w THEN {} ELSE {<<"generator data word differs from the documented sequence", s.nd, e.d, w>>},
-             envbad |-> {}]
+        IF e.u = "g" /\ s.gq # <<>> THEN
+            LET a == Head(s.gq)  w == WordBytes(s.val, bpw) IN
+            IF s.ph = "gen" THEN
+                [s |-> [s EXCEPT !.gq = Tail(@), !.nd = @ + 1, !.val = NextVal(set.rd, @),
+                                 !.gpos = Append(@, <<a, e.d>>), !.mem = BPut(@, a, e.d)],
+                 bad |-> IF e.d = w THEN {} ELSE {<<"generator data word differs from the documented sequence", s.nd, e.d, w>>},
+                 envbad |-> {}]
+            ELSE    \* a write completing after done was reported: the memory does change, and the run was not finished
+                [s |-> [s EXCEPT !.gq = Tail(@), !.mem = BPut(@, a, e.d)],
+                 bad |-> {<<"write data taken after the generator reported done", a>>}, envbad |-> {}]
         ELSE [s |-> s, bad |-> {<<"unexpected write data on a BIST port", s.ph, e.u>>}, envbad |-> {}]
     [] e.c = "RDATA" ->
         IF s.ph = "chk" /\ e.u = "c" /\ s.q # <<>> THEN
@@ -122,7 +127,7 @@ BistStep(s, e) ==      \* -> [s, bad, envbad]
         [s |-> [s EXCEPT !.ph = "idle", !.gran = e.ok,
                          !.stats.repeats = @ + (IF Distinct(s.gpos) THEN 0 ELSE 1)],
          bad |-> (IF ~e.ok THEN {<<"generator did not finish", s.n, s.nd>>} ELSE
-                  (IF s.n # NWords(set) \/ s.nd # NWords(set) \/ s.q # <<>>
+                  (IF s.n # NWords(set) \/ s.nd # NWords(set) \/ s.gq # <<>>
                    THEN {<<"generator finished without having written length / bytes-per-word words", s.n, s.nd, NWords(set)>>} ELSE {})),
          envbad |-> IF s.ph = "gen" THEN {} ELSE {<<"GDONE outside a generator run">>}]
     [] e.c = "CDONE" ->
